@@ -321,5 +321,8 @@ def check(ctx):
         ok = len(rets) == 1 and norm(rets[0].value) == "self.modified_time"
         init = cls.methods["__init__"]
         ok = ok and any(isinstance(n, ast.Assign) and norm(n.targets[0]) == "self.modified_time" and norm(n.value) == "modified_time" for n in init.own_nodes())
+        # ... and `modified_time` still is the caller's object at that point (the parameter is never rebound/converted)
+        ok = ok and not [b for b in init.bindings.get("modified_time", []) if b[0] != "param"]
+        ok = ok and sum(1 for n in init.own_nodes() if isinstance(n, ast.Attribute) and isinstance(n.ctx, ast.Store) and n.attr == "modified_time") == 1
         ctx.ob("C18.Z3", f"{cname}/identity", ok, loc(g), "user-supplied modified time is returned unchanged" if ok else
                "user-supplied modified time is altered")
